@@ -15,7 +15,7 @@
    replay, removal, truncation, cut inside a frame, splice from the other direction or from
    the handshake — is such a list. *)
 From Coq Require Import List ZArith NArith Bool.
-From TM Require Import Common.Hex Generated.Consts C16.Model C16.Proofs.
+From TM Require Import Common.Hex Generated.Consts C16.Model C16.Proofs C16.ModelAuth C16.ProofsCompose.
 Import ListNotations.
 Open Scope N_scope.
 
@@ -362,4 +362,412 @@ Example C16_id_matches_key_nonvacuous :
   upgrade (fun x => x) (Some [3]) (Some [3]) (Some [3]) true [4] true = UpOk [3] [3] /\
   upgrade (fun x => x) (Some [3]) (Some [5]) (Some [3]) true [4] true = UpErr UpDialedID /\
   upgrade (fun x => x) (Some [3]) None (Some [5]) true [4] true = UpErr UpNodeInfoID.
+Proof. vm_compute. repeat split; reflexivity. Qed.
+
+(* ================================================================== the AuthSig exchange on the byte path
+   (ModelAuth.v: shareAuthSignature = protoio delimited writer / reader over the SecretConnection;
+   ProofsCompose.v).  [enc] / [dec] are the protobuf encoding of AuthSigMessage and its decoding
+   (with PubKeyFromProto), arbitrary functions; the uvarint length prefix, the byte-at-a-time
+   length reader, the io.ReadFull loop, Write's chunking and Read's buffering are exact.
+
+   ---- untouched wire: the writer's one Write of  uvarint(len) ++ enc m  from counter 0 does not
+   panic, accepts all bytes and seals >= 1 frames; the delimited reader over those frames (then
+   anything: [tail]) returns exactly  dec (enc m)  - whatever the length of the message up to the
+   reader's 1 MiB limit, one frame or a thousand, the length prefix split from the body or not -
+   with an empty recvBuffer, recvNonce = the writer's sendNonce = number of frames, and [tail]
+   untouched. *)
+Theorem C16_authsig_roundtrip :
+  forall (key cipher : Type) (seal : key -> bytes -> bytes -> cipher)
+    (open : key -> bytes -> cipher -> option bytes) (pool : bytes -> bytes)
+    (enc : authmsg -> bytes) (dec : bytes -> option authmsg) (k : key),
+  (forall n p : bytes, open k n (seal k n p) = Some p) ->
+  forall (m : authmsg) (tail : list (conn_ev cipher)),
+  N.of_nat (length (enc m)) <= max_msg_size ->
+  let w := auth_send key cipher seal pool enc k m in
+  w_panic w = false /\
+  w_n w = length (auth_wire_bytes enc m) /\
+  (1 <= length (w_sent w))%nat /\
+  w_nonce w = nonce_of P0 (N.of_nat (length (w_sent w))) /\
+  auth_recv key cipher open dec k (map EvBlock (w_sent w) ++ tail) =
+  ({| r_buf := []; r_nonce := w_nonce w |}, dec (enc m), tail).
+Proof. exact authsig_roundtrip. Qed.
+Print Assumptions C16_authsig_roundtrip.
+
+(* ---- any wire: if the delimited reader returns a message at all, then the blocks it took off the
+   conn are exactly the writer's sealed frames - all of them, unmodified, in order, nothing in
+   between - the message is the writer's, and the reader is where the untouched run leaves it; or a
+   block that is nowhere on the writer's wire (AuthSig frames and everything it writes afterwards,
+   [ws] arbitrary) opened: an AEAD forgery.  So a wire modified anywhere in those frames makes the
+   Read fail and shareAuthSignature return an error. *)
+Theorem C16_authsig_tamper :
+  forall (key cipher : Type) (seal : key -> bytes -> bytes -> cipher)
+    (open : key -> bytes -> cipher -> option bytes) (pool : bytes -> bytes)
+    (enc : authmsg -> bytes) (dec : bytes -> option authmsg) (k : key),
+  (forall n p : bytes, open k n (seal k n p) = Some p) ->
+  (forall a b : cipher, {a = b} + {a <> b}) ->
+  forall (m : authmsg) (ws : list bytes) (conn : list (conn_ev cipher)) 
+    (st' : rstate) (m' : authmsg) (conn' : list (conn_ev cipher)),
+  N.of_nat (length (enc m)) <= max_msg_size ->
+  let w := auth_send key cipher seal pool enc k m in
+  auth_recv key cipher open dec k conn = (st', Some m', conn') ->
+  AeadForgeryOn open k (all_wire (peer_session key cipher seal pool enc k m ws)) \/
+  conn = map EvBlock (w_sent w) ++ conn' /\
+  dec (enc m) = Some m' /\ st' = {| r_buf := []; r_nonce := w_nonce w |}.
+Proof. exact authsig_tamper. Qed.
+Print Assumptions C16_authsig_tamper.
+
+(* ---- MakeSecretConnection with its last phase on the byte path ([msc_stream]): two honest ends that
+   received each other's ephemeral keys; B got as far as shareAuthSignature and wrote wB.  When A's
+   conn delivers B's frames, A's outcome is [make_secret_connection] on exactly the decoding of the
+   message B built ([hs_auth_out] of B) - hence C16_auth, C16_handshake_checks, C16_id_matches_key,
+   which take the decoded message as input, speak about the bytes on the wire. *)
+Theorem C16_handshake_over_stream :
+  forall (epriv lpriv cipher : Type) (eph_pub : epriv -> bytes)
+    (dh : epriv -> bytes -> option bytes) (transcript : bytes -> bytes -> bytes -> bytes)
+    (hkdf : bytes -> bytes) (pub_of : lpriv -> bytes) (sign : lpriv -> bytes -> bytes)
+    (verify : bytes -> bytes -> bytes -> bool) (seal : bytes -> bytes -> bytes -> cipher)
+    (open : bytes -> bytes -> cipher -> option bytes) (pool : bytes -> bytes)
+    (enc : authmsg -> bytes) (dec : bytes -> option authmsg),
+  (forall k n p : bytes, open k n (seal k n p) = Some p) ->
+  (forall a b : epriv, dh a (eph_pub b) = dh b (eph_pub a)) ->
+  (forall a : epriv, length (eph_pub a) = 32%nat) ->
+  forall (locA locB : lpriv) (ephA ephB : epriv) (connB tail : list (conn_ev cipher))
+    (resB : hs_result) (wB : wres cipher) (stB : option rstate)
+    (restB : list (conn_ev cipher)) (mB : authmsg),
+  eph_pub ephA <> eph_pub ephB ->
+  msc_stream epriv lpriv cipher eph_pub dh transcript hkdf pub_of sign verify seal open pool
+    enc dec locB ephB (Some (eph_pub ephA)) connB = (resB, Some wB, stB, restB) ->
+  hs_auth_out epriv lpriv eph_pub dh transcript pub_of sign locB ephB (Some (eph_pub ephA)) =
+  Some mB ->
+  N.of_nat (length (enc mB)) <= max_msg_size ->
+  exists wA : wres cipher,
+    msc_stream epriv lpriv cipher eph_pub dh transcript hkdf pub_of sign verify seal open pool
+      enc dec locA ephA (Some (eph_pub ephB)) (map EvBlock (w_sent wB) ++ tail) =
+    (make_secret_connection epriv lpriv eph_pub dh transcript hkdf verify locA ephA
+       (Some (eph_pub ephB)) (dec (enc mB)), Some wA,
+     Some {| r_buf := []; r_nonce := w_nonce wB |}, tail) /\
+    w_panic wB = false /\
+    w_nonce wB = nonce_of P0 (N.of_nat (length (w_sent wB))) /\ (1 <= length (w_sent wB))%nat.
+Proof. exact handshake_over_stream. Qed.
+Print Assumptions C16_handshake_over_stream.
+
+(* ... and with  dec (enc m) = Some m  and a signature scheme that accepts its own signatures, A
+   accepts, records B's long-term key, and agrees with the message-level model *)
+Theorem C16_honest_handshake_over_stream :
+  forall (epriv lpriv cipher : Type) (eph_pub : epriv -> bytes)
+    (dh : epriv -> bytes -> option bytes) (transcript : bytes -> bytes -> bytes -> bytes)
+    (hkdf : bytes -> bytes) (pub_of : lpriv -> bytes) (sign : lpriv -> bytes -> bytes)
+    (verify : bytes -> bytes -> bytes -> bool) (seal : bytes -> bytes -> bytes -> cipher)
+    (open : bytes -> bytes -> cipher -> option bytes) (pool : bytes -> bytes)
+    (enc : authmsg -> bytes) (dec : bytes -> option authmsg),
+  (forall k n p : bytes, open k n (seal k n p) = Some p) ->
+  (forall a b : epriv, dh a (eph_pub b) = dh b (eph_pub a)) ->
+  (forall a : epriv, length (eph_pub a) = 32%nat) ->
+  (forall m : authmsg, dec (enc m) = Some m) ->
+  (forall (l : lpriv) (msg : bytes), verify (pub_of l) msg (sign l msg) = true) ->
+  forall (locA locB : lpriv) (ephA ephB : epriv) (connB tail : list (conn_ev cipher))
+    (resB : hs_result) (wB : wres cipher) (stB : option rstate)
+    (restB : list (conn_ev cipher)) (mB : authmsg),
+  eph_pub ephA <> eph_pub ephB ->
+  msc_stream epriv lpriv cipher eph_pub dh transcript hkdf pub_of sign verify seal open pool
+    enc dec locB ephB (Some (eph_pub ephA)) connB = (resB, Some wB, stB, restB) ->
+  hs_auth_out epriv lpriv eph_pub dh transcript pub_of sign locB ephB (Some (eph_pub ephA)) =
+  Some mB ->
+  N.of_nat (length (enc mB)) <= max_msg_size ->
+  exists (s : session) (wA : wres cipher),
+    msc_stream epriv lpriv cipher eph_pub dh transcript hkdf pub_of sign verify seal open pool
+      enc dec locA ephA (Some (eph_pub ephB)) (map EvBlock (w_sent wB) ++ tail) =
+    (HsOk s, Some wA, Some {| r_buf := []; r_nonce := w_nonce wB |}, tail) /\
+    s_rem_pub s = pub_of locB /\
+    make_secret_connection epriv lpriv eph_pub dh transcript hkdf verify locA ephA
+      (Some (eph_pub ephB))
+      (hs_auth_out epriv lpriv eph_pub dh transcript pub_of sign locB ephB
+         (Some (eph_pub ephA))) = HsOk s.
+Proof. exact honest_handshake_over_stream_ok. Qed.
+Print Assumptions C16_honest_handshake_over_stream.
+
+(* ---- any wire: if MakeSecretConnection accepts, then - [mP] being the AuthSig message written
+   under this party's receive key by whoever holds it as send key - the conn began with exactly the
+   sealed frames of mP, and the identity recorded is the key inside mP, an ed25519 key whose
+   signature verifies over this session's challenge; or an AEAD forgery is exhibited. *)
+Theorem C16_handshake_over_stream_tamper :
+  forall (epriv lpriv cipher : Type) (eph_pub : epriv -> bytes)
+    (dh : epriv -> bytes -> option bytes) (transcript : bytes -> bytes -> bytes -> bytes)
+    (hkdf : bytes -> bytes) (pub_of : lpriv -> bytes) (sign : lpriv -> bytes -> bytes)
+    (verify : bytes -> bytes -> bytes -> bool) (seal : bytes -> bytes -> bytes -> cipher)
+    (open : bytes -> bytes -> cipher -> option bytes) (pool : bytes -> bytes)
+    (enc : authmsg -> bytes) (dec : bytes -> option authmsg),
+  (forall k n p : bytes, open k n (seal k n p) = Some p) ->
+  (forall a b : cipher, {a = b} + {a <> b}) ->
+  forall (loc : lpriv) (eph : epriv) (eph_in : option bytes) (conn : list (conn_ev cipher))
+    (s : session) (w : option (wres cipher)) (st : option rstate)
+    (conn' : list (conn_ev cipher)) (mP : authmsg) (ws : list bytes),
+  msc_stream epriv lpriv cipher eph_pub dh transcript hkdf pub_of sign verify seal open pool
+    enc dec loc eph eph_in conn = (HsOk s, w, st, conn') ->
+  N.of_nat (length (enc mP)) <= max_msg_size ->
+  let krecv := s_recv_key s in
+  AeadForgeryOn open krecv (all_wire (peer_session bytes cipher seal pool enc krecv mP ws)) \/
+  conn = map EvBlock (w_sent (auth_send bytes cipher seal pool enc krecv mP)) ++ conn' /\
+  (exists am : authmsg,
+     dec (enc mP) = Some am /\
+     s_rem_pub s = am_key am /\
+     am_type am = KEd25519 /\
+     verify (am_key am) (s_challenge s) (am_sig am) = true /\
+     st =
+     Some
+       {| r_buf := []; r_nonce := w_nonce (auth_send bytes cipher seal pool enc krecv mP) |}).
+Proof. exact handshake_over_stream_tamper. Qed.
+Print Assumptions C16_handshake_over_stream_tamper.
+
+(* the same, read the other way: a conn that does not begin with exactly those frames (a bit
+   flipped, a frame dropped, duplicated, swapped, replaced, truncated) makes MakeSecretConnection
+   return the error of shareAuthSignature - no peer key is accepted *)
+Theorem C16_handshake_over_stream_rejects :
+  forall (epriv lpriv cipher : Type) (eph_pub : epriv -> bytes)
+    (dh : epriv -> bytes -> option bytes) (transcript : bytes -> bytes -> bytes -> bytes)
+    (hkdf : bytes -> bytes) (pub_of : lpriv -> bytes) (sign : lpriv -> bytes -> bytes)
+    (verify : bytes -> bytes -> bytes -> bool) (seal : bytes -> bytes -> bytes -> cipher)
+    (open : bytes -> bytes -> cipher -> option bytes) (pool : bytes -> bytes)
+    (enc : authmsg -> bytes) (dec : bytes -> option authmsg),
+  (forall k n p : bytes, open k n (seal k n p) = Some p) ->
+  (forall a b : cipher, {a = b} + {a <> b}) ->
+  forall (loc : lpriv) (eph : epriv) (eph_in : option bytes) (conn : list (conn_ev cipher))
+    (lo hi d : bytes) (least : bool) (mP : authmsg) (ws : list bytes),
+  hs_transcript epriv eph_pub dh eph eph_in = Some (lo, hi, d, least) ->
+  N.of_nat (length (enc mP)) <= max_msg_size ->
+  let krecv := fst (derive_secrets hkdf d least) in
+  (forall rest : list (conn_ev cipher),
+   conn <> map EvBlock (w_sent (auth_send bytes cipher seal pool enc krecv mP)) ++ rest) ->
+  AeadForgeryOn open krecv (all_wire (peer_session bytes cipher seal pool enc krecv mP ws)) \/
+  fst
+    (fst
+       (fst
+          (msc_stream epriv lpriv cipher eph_pub dh transcript hkdf pub_of sign verify seal
+             open pool enc dec loc eph eph_in conn))) = HsErr HsAuthIO.
+Proof. exact handshake_over_stream_rejects. Qed.
+Print Assumptions C16_handshake_over_stream_rejects.
+
+(* ---- no counter is shared between handshake and data.  The session of one direction is the
+   AuthSig Write from the zero nonce followed by the application's Writes [ws], the transport
+   failing wherever it likes ([outs]).  The AuthSig Write does not panic and seals m0 >= 1 frames
+   (m0 = 1 when the message fits a frame, as the real one does) under counters 0 .. m0-1; sendNonce
+   is then m0, where the application's first Write starts; all Seal calls of the session carry the
+   counters 0, 1, 2, ... in order, those of the data phase m0, m0+1, ...; all pairwise different. *)
+Theorem C16_first_data_after_handshake :
+  forall (key cipher : Type) (seal : key -> bytes -> bytes -> cipher) 
+    (pool : bytes -> bytes) (enc : authmsg -> bytes) (k : key) (m : authmsg) 
+    (ws : list bytes) (outs : list tout),
+  N.of_nat (length (enc m)) <= max_msg_size ->
+  let w0 := write_t key cipher seal pool k zero_nonce (auth_wire_bytes enc m) outs in
+  let m0 := length (wt_calls w0) in
+  let W := run_writes_t key cipher seal pool k zero_nonce (auth_wire_bytes enc m :: ws) outs
+    in
+  wt_panic w0 = false /\
+  (1 <= m0)%nat /\
+  ((length (auth_wire_bytes enc m) <= data_max_size)%nat -> m0 = 1%nat) /\
+  map sl_nonce (wt_calls w0) = map (nonce_of P0) (nseq 0 m0) /\
+  wt_nonce w0 = nonce_of P0 (N.of_nat m0) /\
+  W = w0 :: run_writes_t key cipher seal pool k (nonce_of P0 (N.of_nat m0)) ws (wt_outs w0) /\
+  all_calls_t W = wt_calls w0 ++ all_calls_t (tl W) /\
+  map sl_nonce (all_calls_t W) = map (nonce_of P0) (nseq 0 (length (all_calls_t W))) /\
+  map sl_nonce (all_calls_t (tl W)) =
+  map (nonce_of P0) (nseq (N.of_nat m0) (length (all_calls_t (tl W)))) /\
+  NoDup (map sl_nonce (all_calls_t W)).
+Proof. exact first_data_after_handshake. Qed.
+Print Assumptions C16_first_data_after_handshake.
+
+(* the reader's side of it, untouched wire carrying the AuthSig frames and then the data frames:
+   the handshake's reader leaves an empty buffer and counter m0, consumes no data frame, and the
+   Reads of the data phase return a prefix of exactly the application's Writes *)
+Theorem C16_session_after_handshake :
+  forall (key cipher : Type) (seal : key -> bytes -> bytes -> cipher)
+    (open : key -> bytes -> cipher -> option bytes) (pool : bytes -> bytes)
+    (enc : authmsg -> bytes) (dec : bytes -> option authmsg) (k : key),
+  (forall n p : bytes, open k n (seal k n p) = Some p) ->
+  forall (m : authmsg) (ws : list bytes) (caps : list nat) (st1 : rstate)
+    (am : option authmsg) (conn1 : list (conn_ev cipher)) (rs : list rres) 
+    (st2 : rstate) (conn2 : list (conn_ev cipher)),
+  N.of_nat (length (enc m)) <= max_msg_size ->
+  let W := peer_session key cipher seal pool enc k m ws in
+  no_panic W ->
+  auth_recv key cipher open dec k (map EvBlock (all_sent W)) = (st1, am, conn1) ->
+  run_reads key cipher open k st1 conn1 caps = (rs, st2, conn2) ->
+  am = dec (enc m) /\
+  st1 =
+  reader_init
+    (nonce_of P0 (N.of_nat (length (w_sent (auth_send key cipher seal pool enc k m))))) /\
+  (exists rest : list N, concat ws = concat (map rres_data rs) ++ rest) /\
+  Forall (fun r : rres => rres_ok r = true \/ r = RErrIO) rs /\
+  (In RErrIO rs -> concat (map rres_data rs) = concat ws).
+Proof. exact session_after_handshake. Qed.
+Print Assumptions C16_session_after_handshake.
+
+(* ... and on any wire: a message accepted by the handshake's reader is the peer's, and whatever
+   the data-phase Reads return afterwards is a prefix of the application's Writes, or a block that
+   is nowhere on the peer's wire (handshake or data) opened *)
+Theorem C16_session_after_handshake_tamper :
+  forall (key cipher : Type) (seal : key -> bytes -> bytes -> cipher)
+    (open : key -> bytes -> cipher -> option bytes) (pool : bytes -> bytes)
+    (enc : authmsg -> bytes) (dec : bytes -> option authmsg) (k : key),
+  (forall n p : bytes, open k n (seal k n p) = Some p) ->
+  (forall a b : cipher, {a = b} + {a <> b}) ->
+  forall (m : authmsg) (ws : list bytes) (conn : list (conn_ev cipher)) 
+    (caps : list nat) (st1 : rstate) (m' : authmsg) (conn1 : list (conn_ev cipher))
+    (rs : list rres) (st2 : rstate) (conn2 : list (conn_ev cipher)),
+  N.of_nat (length (enc m)) <= max_msg_size ->
+  let W := peer_session key cipher seal pool enc k m ws in
+  auth_recv key cipher open dec k conn = (st1, Some m', conn1) ->
+  run_reads key cipher open k st1 conn1 caps = (rs, st2, conn2) ->
+  AeadForgeryOn open k (all_wire W) \/
+  dec (enc m) = Some m' /\
+  conn = map EvBlock (w_sent (auth_send key cipher seal pool enc k m)) ++ conn1 /\
+  (exists rest : list N, concat ws = concat (map rres_data rs) ++ rest).
+Proof. exact session_after_handshake_tamper. Qed.
+Print Assumptions C16_session_after_handshake_tamper.
+
+(* ---- the frame layout the harness compares byte-for-byte: 4-byte little-endian length | chunk |
+   rest of the pooled 1028-byte buffer (zeros for a fresh buffer); the length field decodes to the
+   chunk length <= 1024; the reader's parse of the frame gives the chunk back; 1028 bytes in all
+   (sealed: +16 = 1044, C16_frame_sizes) *)
+Theorem C16_frame_layout :
+  forall (chunk : list N) (stale : bytes),
+  (length chunk <= data_max_size)%nat ->
+  let f := mk_frame chunk stale in
+  firstn 4 f = le_enc 4 (N.of_nat (length chunk)) /\
+  le_dec (firstn 4 f) = N.of_nat (length chunk) /\
+  le_dec (firstn 4 f) <= N.of_nat data_max_size /\
+  frame_chunk f = chunk /\
+  (length f <= total_frame_size)%nat /\
+  (length stale = total_frame_size ->
+   length f = total_frame_size /\
+   f =
+   le_enc 4 (N.of_nat (length chunk)) ++ chunk ++ skipn (data_len_size + length chunk) stale) /\
+  (stale = repeat 0 total_frame_size ->
+   f = le_enc 4 (N.of_nat (length chunk)) ++ chunk ++ repeat 0 (data_max_size - length chunk)).
+Proof. exact frame_layout. Qed.
+Print Assumptions C16_frame_layout.
+
+Theorem C16_frame_sizes :
+  total_frame_size = (data_len_size + data_max_size)%nat /\
+  sealed_frame_size = (total_frame_size + 16)%nat /\
+  Z.of_nat data_len_size = 4%Z /\ Z.of_nat data_max_size = 1024%Z /\
+  Z.of_nat total_frame_size = 1028%Z /\ Z.of_nat sealed_frame_size = 1044%Z.
+Proof. exact frame_sizes. Qed.
+Print Assumptions C16_frame_sizes.
+
+(* every frame a Write seals has that layout with a chunk of 1..1024 bytes, is what Seal was
+   given, and the chunks are the data in order *)
+Theorem C16_write_frames_layout :
+  forall (key cipher : Type) (seal : key -> bytes -> bytes -> cipher) 
+    (pool : bytes -> bytes) (k : key) (pre : bytes),
+  length pre = 4%nat ->
+  forall (data : bytes) (c : N),
+  c <= max_uint64 ->
+  let w := write key cipher seal pool k (nonce_of pre c) data in
+  w_panic w = false ->
+  Forall (frame_ok key cipher seal pool k) (w_calls w) /\
+  concat (map (fun s : seal_call cipher => frame_chunk (sl_plain s)) (w_calls w)) = data /\
+  w_sent w = map sl_out (w_calls w) /\ w_n w = length data.
+Proof. exact write_frames_layout. Qed.
+Print Assumptions C16_write_frames_layout.
+
+(* the model's bound on the io.ReadFull loop is never the reason for a result *)
+Theorem C16_read_full_never_out_of_fuel :
+  forall (key cipher : Type) (open : key -> bytes -> cipher -> option bytes) 
+    (k : key) (st : rstate) (want : nat) (conn : list (conn_ev cipher)),
+  snd (fst (read_full key cipher open k st want conn)) <> FFuel.
+Proof. exact read_full_fuel. Qed.
+Print Assumptions C16_read_full_never_out_of_fuel.
+
+(* ------------------------------------------------------------------ non-vacuity (byte path) *)
+(* toy AEAD with byte-string keys; toy encoding: key length, key, signature *)
+Definition tb_cipher := (bytes * bytes * bytes)%type.
+Definition tb_seal (k n p : bytes) : tb_cipher := (k, n, p).
+Definition tb_open (k n : bytes) (c : tb_cipher) : option bytes :=
+  let '(k', n', p) := c in if bytes_eqb k k' && bytes_eqb n n' then Some p else None.
+Definition tb_enc (m : authmsg) : bytes := N.of_nat (length (am_key m)) :: am_key m ++ am_sig m.
+Definition tb_dec (b : bytes) : option authmsg :=
+  match b with
+  | l :: r => Some {| am_type := KEd25519; am_key := firstn (N.to_nat l) r; am_sig := skipn (N.to_nat l) r |}
+  | [] => None
+  end.
+(* a message of 3 + 1500 bytes: length prefix of 2 bytes, two frames *)
+Definition tb_big : authmsg := {| am_type := KEd25519; am_key := [8; 9]; am_sig := repeat 5 1500 |}.
+Definition tb_wbig := auth_send bytes tb_cipher tb_seal t_pool tb_enc [42] tb_big.
+
+Example C16_authsig_roundtrip_nonvacuous :
+  length (auth_wire_bytes tb_enc tb_big) = 1505%nat /\
+  firstn 2 (auth_wire_bytes tb_enc tb_big) = [223; 11] /\   (* uvarint 1503 = df 0b *)
+  length (w_sent tb_wbig) = 2%nat /\ w_nonce tb_wbig = nonce_of P0 2 /\
+  auth_recv bytes tb_cipher tb_open tb_dec [42] (map EvBlock (w_sent tb_wbig) ++ [EvErr])
+    = ({| r_buf := []; r_nonce := nonce_of P0 2 |}, Some tb_big, [EvErr]).
+Proof. vm_compute. repeat split; reflexivity. Qed.
+
+(* the two frames swapped; the second frame missing; the first frame twice; a frame of the same
+   message sealed under another key: no message *)
+Example C16_authsig_tamper_nonvacuous :
+  match w_sent tb_wbig, w_sent (auth_send bytes tb_cipher tb_seal t_pool tb_enc [43] tb_big) with
+  | [f0; f1], [g0; g1] =>
+    snd (fst (auth_recv bytes tb_cipher tb_open tb_dec [42] [EvBlock f1; EvBlock f0])) = None /\
+    snd (fst (auth_recv bytes tb_cipher tb_open tb_dec [42] [EvBlock f0])) = None /\
+    snd (fst (auth_recv bytes tb_cipher tb_open tb_dec [42] [EvBlock f0; EvBlock f0; EvBlock f1])) = None /\
+    snd (fst (auth_recv bytes tb_cipher tb_open tb_dec [42] [EvBlock f0; EvBlock g1])) = None /\
+    snd (fst (auth_recv bytes tb_cipher tb_open tb_dec [42] [EvBlock f0; EvBlock f1])) = Some tb_big
+  | _, _ => False
+  end.
+Proof. vm_compute. repeat split; reflexivity. Qed.
+
+(* the whole handshake over the stream with the toy primitives of C16_auth_nonvacuous: B
+   (ephemeral 7, long-term 12) writes its AuthSig frame; A (ephemeral 5, long-term 11) reads it and
+   accepts the key [12]; over an empty conn, over its own frame reflected back, or over B's frame
+   with one plaintext byte changed and resealed under another key, A fails in shareAuthSignature *)
+Definition tb_pub (l : N) : bytes := [l].
+Definition tb_sign (l : N) (msg : bytes) : bytes := [l] ++ msg.
+Definition tb_mscs := msc_stream N N tb_cipher t_eph_pub t_dh t_transcript t_hkdf tb_pub tb_sign t_verify
+                        tb_seal tb_open t_pool tb_enc tb_dec.
+Example C16_handshake_over_stream_nonvacuous :
+  match tb_mscs 12 7 (Some (t_eph_pub 5)) [], tb_mscs 11 5 (Some (t_eph_pub 7)) [] with
+  | (HsErr HsAuthIO, Some wB, _, _), (HsErr HsAuthIO, Some wA, _, _) =>
+    length (w_sent wB) = 1%nat /\ w_nonce wB = nonce_of P0 1 /\
+    (match tb_mscs 11 5 (Some (t_eph_pub 7)) (map EvBlock (w_sent wB) ++ [EvErr]) with
+     | (HsOk s, Some _, Some st, [EvErr]) =>
+       s_rem_pub s = [12] /\ st = {| r_buf := []; r_nonce := nonce_of P0 1 |}
+     | _ => False
+     end) /\
+    fst (fst (fst (tb_mscs 11 5 (Some (t_eph_pub 7)) (map EvBlock (w_sent wA))))) = HsErr HsAuthIO /\
+    fst (fst (fst (tb_mscs 11 5 (Some (t_eph_pub 7))
+                     (map (fun c : tb_cipher => let '(k, n, p) := c in EvBlock (1 :: k, n, p)) (w_sent wB)))))
+      = HsErr HsAuthIO
+  | _, _ => False
+  end.
+Proof. vm_compute. repeat split; reflexivity. Qed.
+
+(* AuthSig Write (one frame, counter 0), then Writes of 3 and 2 bytes with the transport failing
+   on the second frame of the session: counters 0, 1, 2 *)
+Definition tb_small : authmsg := {| am_type := KEd25519; am_key := [8; 9]; am_sig := [1; 2; 3] |}.
+Example C16_first_data_after_handshake_nonvacuous :
+  let W := run_writes_t bytes tb_cipher tb_seal t_pool [42] zero_nonce
+             (auth_wire_bytes tb_enc tb_small :: [[1; 2; 3]; [4; 5]]) [TOk; TErr 100] in
+  map (@sl_nonce tb_cipher) (all_calls_t W) = [nonce_of P0 0; nonce_of P0 1; nonce_of P0 2] /\
+  map (fun w => length (wt_calls w)) W = [1; 1; 1]%nat /\
+  auth_wire_bytes tb_enc tb_small = [6; 2; 8; 9; 1; 2; 3].
+Proof. vm_compute. repeat split; reflexivity. Qed.
+
+(* the session read back: AuthSig message, then the data *)
+Example C16_session_after_handshake_nonvacuous :
+  let W := peer_session bytes tb_cipher tb_seal t_pool tb_enc [42] tb_small [[1; 2; 3]; [4; 5]] in
+  match auth_recv bytes tb_cipher tb_open tb_dec [42] (map EvBlock (all_sent W)) with
+  | (st1, am, conn1) =>
+    am = Some tb_small /\ st1 = reader_init (nonce_of P0 1) /\ length conn1 = 2%nat /\
+    fst (fst (run_reads bytes tb_cipher tb_open [42] st1 conn1 [2; 9; 9; 9]%nat))
+      = [ROk [1; 2]; ROk [3]; ROk [4; 5]; RErrIO]
+  end.
+Proof. vm_compute. repeat split; reflexivity. Qed.
+
+Example C16_frame_layout_nonvacuous :
+  mk_frame [1; 2; 3] (repeat 0 total_frame_size) = [3; 0; 0; 0; 1; 2; 3] ++ repeat 0 1021 /\
+  length (mk_frame (repeat 7 1024) (repeat 9 total_frame_size)) = total_frame_size /\
+  firstn 4 (mk_frame (repeat 7 1024) (repeat 9 total_frame_size)) = [0; 4; 0; 0] /\
+  frame_chunk (mk_frame [1; 2; 3] (repeat 9 total_frame_size)) = [1; 2; 3] /\
+  skipn 7 (mk_frame [1; 2; 3] (repeat 9 total_frame_size)) = repeat 9 1021.
 Proof. vm_compute. repeat split; reflexivity. Qed.
